@@ -18,6 +18,11 @@ type scanResult struct {
 	HdrErr  error
 	Err     error
 	Scanned int
+	// Again: a consumer may call Scan once more after it has returned false; it must return
+	// false again at once (a scanner that blocks here wedges the case: a hang), and Err must
+	// not change. AgainTrue / AgainErrChanged record a breach.
+	AgainTrue       bool
+	AgainErrChanged bool
 }
 
 // pbfScan runs one scan of r with procs decoders; cfg may set skip flags / filters; each
@@ -44,8 +49,29 @@ func pbfScanCtx(ctx context.Context, r io.Reader, procs int, askHeader bool, cfg
 		res.Objs = append(res.Objs, o)
 	}
 	res.Err = s.Err()
+	for i := 0; i < 2; i++ {
+		if s.Scan() {
+			res.AgainTrue = true
+		}
+	}
+	if e := s.Err(); (e == nil) != (res.Err == nil) {
+		res.AgainErrChanged = true
+	}
 	s.Close()
 	return res
+}
+
+// scanAgain reports a scanner that delivered something, or changed its verdict, when Scan was
+// called again after it had returned false ("then stops").
+func scanAgain(res interface {
+	Violatef(key, format string, a ...interface{})
+}, sr scanResult, key string) {
+	if sr.AgainTrue {
+		res.Violatef(key+"/scan-true-after-false", "Scan returned true again after it had returned false")
+	}
+	if sr.AgainErrChanged {
+		res.Violatef(key+"/err-changed-after-false", "Err() changed between nil and non-nil when Scan was called again after false")
+	}
 }
 
 // smallFileOpts are generator options for files with many small blocks.
